@@ -88,10 +88,10 @@ MIN_EVALS = 200
 
 # ---- frozen tolerances (calibration: see worst_observed in evidence; values in the final report) -------------------
 AREA_TOL = 0.30            # tr-nnls: |area/R_pol - 1|
-PEAK_STEPS_RC = 3.0        # tr-nnls: RC element, nearest returned peak, in grid steps ...
-PEAK_DEC_RC = 0.25         # ... or within this many decades, whichever is larger
+PEAK_STEPS_RC = 4.0        # tr-nnls: RC element, nearest returned peak, in grid steps ...
+PEAK_DEC_RC = 0.30         # ... or within this many decades, whichever is larger
 PEAK_DEC_RQ = 0.75         # tr-nnls: RQ element, nearest returned peak, in decades
-CENTROID_DEC = 0.40        # tr-nnls: RQ element, local centre of mass, in decades
+CENTROID_DEC = 0.60        # tr-nnls: RQ element, local centre of mass, in decades
 RQ_PEAK_LAMBDA_MAX = 1e-2  # tr-nnls: the RQ nearest-peak clause is decided when the reported lambda is <= this (resolution)
 SCALE_FIXED_REL = 1e-6     # tr-nnls fixed lambda: max|gamma'/a - gamma| / max gamma, and tau rel (also tau rel for automatic lambda)
 LM_REL = 1e-3              # lm: rel. error of recovered tau_k and R_k
@@ -450,6 +450,7 @@ def _check_nnls_result(acc, cell, tag, rep, lad, f, r):
         if n == 1.0:
             acc.stat(cell + "/peak-checked[rc]")
             acc.obs(cell + "/peak_dev_steps[rc]" + sfx, d / step)
+            acc.obs(cell + "/peak_dev_over_tolerance[rc]", min(d / step / PEAK_STEPS_RC, d / PEAK_DEC_RC))
             acc.obs(cell + "/centroid_dev_decades[rc,info]", cen)
             if not (d / step <= PEAK_STEPS_RC or d <= PEAK_DEC_RC):
                 acc.bad(vkey + "peak-position", f"RC element tau={t0:.6g}: nearest returned peak at {tp:.6g} = {d / step:.2f} grid steps away "
